@@ -83,6 +83,26 @@ struct Elem<resolvo::String> {
     static std::string dflt() { return ""; }
 };
 
+// Large elements: growth policies that reason in bytes ("a block of a page or more grows by
+// 1.5x", "at least 4 elements unless they are large") behave differently for them.
+template <size_t N>
+struct Big {
+    uint32_t tag;
+    unsigned char pad[N];
+    Big() : tag(0) { std::memset(pad, 0, N); }
+    explicit Big(uint32_t k) : tag(k) { std::memset(pad, (unsigned char)k, N); }
+    bool operator==(const Big& o) const { return tag == o.tag && std::memcmp(pad, o.pad, N) == 0; }
+    bool operator!=(const Big& o) const { return !(*this == o); }
+};
+template <size_t N>
+struct Elem<Big<N>> {
+    using S = uint32_t;
+    static Big<N> make(uint32_t k) { return Big<N>(k); }
+    static uint32_t shadow(uint32_t k) { return k; }
+    static bool eq(const Big<N>& a, const uint32_t& b) { return a.tag == b && a.pad[0] == (unsigned char)b && a.pad[N - 1] == (unsigned char)b; }
+    static uint32_t dflt() { return 0; }
+};
+
 template <typename T>
 static void verify(const resolvo::Vector<T>& v, const std::vector<typename Elem<T>::S>& s, const char* what) {
     checks_done++;
@@ -418,10 +438,12 @@ extern "C" int LLVMFuzzerTestOneInput(const uint8_t* data, size_t size) {
     tape_pos = 0;
     allow_alias = true;
     uint64_t nops = 20 + below(200);
-    switch (below(4)) {
+    switch (below(6)) {
         case 0: run_vec<int>(nops, "Vector<int>"); break;
         case 1: run_vec<resolvo::SolvableId>(nops, "Vector<SolvableId>"); break;
         case 2: run_vec<resolvo::String>(nops, "Vector<String>"); break;
+        case 3: run_vec<Big<1100>>(nops / 2, "Vector<Big<1100>>"); break;
+        case 4: run_vec<Big<4200>>(nops / 2, "Vector<Big<4200>>"); break;
         default: run_string(nops); break;
     }
     return 0;
@@ -437,6 +459,10 @@ int main(int argc, char** argv) {
         run_vec<int>(nops, "Vector<int>");
         run_vec<resolvo::SolvableId>(nops, "Vector<SolvableId>");
         run_vec<resolvo::String>(nops, "Vector<String>");
+        if (s % 4 == 0) {
+            run_vec<Big<1100>>(nops / 3, "Vector<Big<1100>>");
+            run_vec<Big<4200>>(nops / 3, "Vector<Big<4200>>");
+        }
         run_string(nops);
     }
     std::cout << "OK sequences=" << nseq * 4 << " ops=" << ops_done << " checks=" << checks_done << " growths=" << growths
